@@ -211,7 +211,7 @@ PROPS = {
   'model_name': 'Model/Reader.v step',
   'rule': 'cases = 12 (40) generated files covering interlace x animation x default image in/out x sub-frames; all op sequences over {next_frame, next_row, next_interlaced_row, read_row, next_frame_info, finish, getters} '
           'to length 4 (5) + 120 (600) random sequences of 5-40 ops per file + sequences under EXPAND/STRIP/ALPHA; rows re-assembled (interlaced: public expand_interlaced_row) and every completed frame compared with the '
-          'single whole-frame decode; abstract traces compared with the Coq model. distinct = (file class, frames delivered).',
+          'single whole-frame decode; abstract traces compared with the Coq model; plus 6 tall highly-compressible APNGs (raw frame size just over / well over 32 KiB, so that the data sequence is flushed while rows are still buffered) x row-call counts around the 32 KiB edge x 4 continuations x 3 prefixes: a frame call made in mid-frame must come back with the SAME frame. distinct = (file class, frames delivered).',
   'trusted_base': ['hand model coq/Model/Reader.v tied by differential execution', 'op-sequence runner harness/src/ops.rs'],
   'assumptions': ['padding bits of sub-byte rows are not compared'],
  },
